@@ -91,6 +91,13 @@ class Submodule(Module):
                     child.file_ast.scope_list[i] = child
             return child
 
+        # Undo the replacement of MODULE PROCEDURE placeholders by an earlier call,
+        # the prototype may have changed or disappeared since
+        for i, child in enumerate(self.children):
+            placeholder = getattr(child, "placeholder", None)
+            if placeholder is not None:
+                self.children[i] = placeholder
+                replace_child_in_scope_list(placeholder, child)
         # Link subroutine/function implementations to prototypes
         if self.ancestor_obj is None:
             return
@@ -106,6 +113,7 @@ class Submodule(Module):
                     child_old = child
                     child = create_child_from_prototype(child_old, interface)
                     child.copy_from(child_old)
+                    child.placeholder = child_old
                     self.children[i] = child
                     child = replace_child_in_scope_list(child, child_old)
 
